@@ -178,6 +178,45 @@ Proof.
   - intros H j t Hj _ Ht. apply H; auto.
 Qed.
 
+(* linear mode: |sum_i |A_ji| X_it| <= L_j + max(abs_tol, rel_tol L_j) *)
+Lemma lin_sum a X t : dot RF (map Rabs a) (col RF t X) = lsum a X t.
+Proof.
+  revert X; induction a as [|ai a IH]; intros X; simpl; auto.
+  destruct X as [|r X]; simpl; auto. specialize (IH X). unfold col in *. simpl in *. now rewrite IH.
+Qed.
+
+Lemma mag_le_real S rhs : mag_le RF (S, 0) rhs = true <-> Rabs S <= rhs.
+Proof.
+  rewrite mag_le_spec. replace (S * S + 0 * 0) with (Rsqr S) by (unfold Rsqr; ring).
+  now rewrite sqrt_Rsqr_abs.
+Qed.
+
+Lemma definition_linear A L phi vt rt X T :
+  length A = length L ->
+  net_is_feasible RF (net_of A L phi vt rt) X T true None None = true <->
+  forall j t, (j < length L)%nat -> (t < T)%nat ->
+    Rabs (lsum (nth j A []) X t) <= nth j L 0 + Rmax vt (rt * nth j L 0).
+Proof.
+  intros HL. unfold net_is_feasible, net_of; cbn [n_limits n_vt n_rt]. rewrite !opt_or_none.
+  assert (G : forallb (fun p => forallb (fun z => mag_le RF z (fst p)) (snd p))
+                (combine (map (net_rhs RF vt rt) L)
+                   (constraint_current RF (Build_network RF (Some A) L (map cis_deg phi) vt rt) X T true)) = true <->
+              forall j t, (j < length L)%nat -> (t < T)%nat ->
+                Rabs (lsum (nth j A []) X t) <= nth j L 0 + Rmax vt (rt * nth j L 0)).
+  { unfold constraint_current, n_rows; cbn [n_matrix].
+    rewrite (forallb_combine_nth _ (net_rhs RF vt rt) _ 0 []).
+    split; intros H j.
+    - intros t Hj Ht.
+      assert (Hj2 : (j < length A)%nat) by (change (j < @Datatypes.length (list R) A)%nat; rewrite HL; exact Hj).
+      specialize (H j Hj Hj2). cbn [fst snd] in H.
+      rewrite forallb_map in H. rewrite forallb_seq in H. specialize (H t Ht).
+      cbn [fabs RF] in H. rewrite lin_sum in H. apply mag_le_real in H. now rewrite net_rhs_eq in H.
+    - intros Hj1 Hj2. cbn [fst snd]. rewrite forallb_map. apply forallb_seq. intros t Ht.
+      cbn [fabs RF]. rewrite lin_sum. apply mag_le_real. rewrite net_rhs_eq. now apply H. }
+  destruct L; [|exact G].
+  split; auto. intros _ j t Hj; simpl in Hj; lia.
+Qed.
+
 (* ------------------------------------------------------------------ agreement *)
 Lemma info_ok_fields (n : network RF) inf :
   infrastructure_info RF n = Ok inf ->
